@@ -7,6 +7,7 @@ import (
 	"sync"
 
 	"github.com/btcsuite/btcd/blockchain"
+	"github.com/btcsuite/btcd/btcec/v2/ecdsa"
 	"github.com/btcsuite/btcd/btcutil/v2"
 	"github.com/btcsuite/btcd/txscript/v2"
 	"github.com/btcsuite/btcd/wire/v2"
@@ -226,6 +227,47 @@ type parItem struct {
 	want string
 }
 
+// highSTwin returns a copy of the spend in which the first strictly DER-encoded signature found in the
+// scriptSig pushes / witness items is replaced by its high-S form (same r, s' = n - s), or nil.
+func highSTwin(s *spend) *spend {
+	flip := func(d []byte) []byte {
+		if len(d) < 9 {
+			return nil
+		}
+		sig, err := ecdsa.ParseDERSignature(d[:len(d)-1])
+		if err != nil {
+			return nil
+		}
+		rr, ss := sig.R(), sig.S()
+		rb, sb := rr.Bytes(), ss.Bytes()
+		return append(derSig(rb[:], negS(sb[:])), d[len(d)-1])
+	}
+	tx := s.tx.Copy()
+	in := tx.TxIn[s.idx]
+	for i, w := range in.Witness {
+		if f := flip(w); f != nil {
+			nw := make(wire.TxWitness, len(in.Witness))
+			copy(nw, in.Witness)
+			nw[i] = f
+			in.Witness = nw
+			return &spend{flags: s.flags, tx: tx, idx: s.idx, spent: s.spent}
+		}
+	}
+	t := txscript.MakeScriptTokenizer(0, in.SignatureScript)
+	prevOff := int32(0)
+	for t.Next() {
+		if t.Opcode() <= txscript.OP_PUSHDATA4 {
+			if f := flip(t.Data()); f != nil {
+				ns := cat(in.SignatureScript[:prevOff], pushBytes(f), in.SignatureScript[t.ByteIndex():])
+				in.SignatureScript = ns
+				return &spend{flags: s.flags, tx: tx, idx: s.idx, spent: s.spent}
+			}
+		}
+		prevOff = t.ByteIndex()
+	}
+	return nil
+}
+
 // runPar executes this spend in 4 goroutines while 4 more re-execute recently seen other spends, all sharing
 // one signature cache; every goroutine must reproduce the sequential verdict of its spend.
 func (s *spend) runPar() string {
@@ -237,6 +279,15 @@ func (s *spend) runPar() string {
 		parRing = parRing[len(parRing)-8:]
 	}
 	parMu.Unlock()
+	// with LOW_S a twin spend carrying the high-S form of the same signature hammers the signature
+	// encoding check while the original verifies (shared scratch state would mix the two up)
+	reps := 12
+	if s.flags&txscript.ScriptVerifyLowS != 0 {
+		if tw := highSTwin(s); tw != nil {
+			others = []parItem{{tw, tw.runBtcd()}}
+			reps = 600
+		}
+	}
 	sc := txscript.NewSigCache(16)
 	f := s.fetcher()
 	shared := txscript.NewTxSigHashes(s.tx, f)
@@ -258,7 +309,14 @@ func (s *spend) runPar() string {
 				of := it.s.fetcher()
 				hc, pf = txscript.NewTxSigHashes(it.s.tx, of), of
 			}
-			for rep := 0; rep < 2; rep++ {
+			n := 12
+			if reps > 12 {
+				n = 40
+			}
+			if g >= 4 {
+				n = reps
+			}
+			for rep := 0; rep < n; rep++ {
 				prev := it.s.spent[it.s.idx]
 				vm, err := txscript.NewEngine(prev.PkScript, it.s.tx, it.s.idx, it.s.flags, sc, hc, prev.Value, pf)
 				got := "err"
